@@ -1,0 +1,104 @@
+//go:build verif
+
+// Contracts for package linkedliststack (comment-only; read by /verif/engine, never compiled into the package).
+
+package linkedliststack
+
+//@ pred Inv(s) := s != nil && s.list != nil && singlylinkedlist.Inv(s.list)
+//@ -- abstract view: the element that would be removed next comes first
+//@ pred Seq(s) := singlylinkedlist.Seq(s.list)
+
+//@ func New
+//@   modifies nothing
+//@   ensures [C05 C15 C17] fresh(result) && Inv(result) && len(Seq(result)) == 0 && fresh(result.list)
+
+//@ func Stack.Push
+//@   requires Inv(stack)
+//@   modifies stack.list.first, stack.list.last, stack.list.size, stack.list.nodes
+//@   modifies each e like stack.list.first where e.owner == stack.list : e.next, e.idx
+//@   ensures [C05 C17] Inv(stack) && stack.list == old(stack.list) && Seq(stack) == [value] ++ old(Seq(stack))
+
+//@ func Stack.Pop
+//@   requires Inv(stack)
+//@   modifies stack.list.first, stack.list.last, stack.list.size, stack.list.nodes
+//@   modifies each e like stack.list.first where e.owner == stack.list : e.next, e.idx
+//@   ensures [C05 C17] Inv(stack) && stack.list == old(stack.list)
+//@   ensures [C05] empty: old(len(Seq(stack))) == 0 ==> !ok && value == zero(value) && len(Seq(stack)) == 0
+//@   ensures [C05] nonempty: old(len(Seq(stack))) > 0 ==> ok && value == old(Seq(stack))[0] && Seq(stack) == old(Seq(stack))[1:]
+
+//@ func Stack.Peek
+//@   requires Inv(stack)
+//@   modifies nothing
+//@   ensures [C05 C17 C18] len(Seq(stack)) == 0 ==> !ok && value == zero(value)
+//@   ensures [C05 C17 C18] len(Seq(stack)) > 0 ==> ok && value == Seq(stack)[0]
+
+//@ func Stack.Empty
+//@   requires Inv(stack)
+//@   modifies nothing
+//@   ensures [C15 C17 C18] result == (len(Seq(stack)) == 0)
+
+//@ func Stack.Size
+//@   requires Inv(stack)
+//@   modifies nothing
+//@   ensures [C05 C15 C17 C18] result == len(Seq(stack)) && result >= 0
+
+//@ func Stack.Clear
+//@   requires Inv(stack)
+//@   modifies stack.list.first, stack.list.last, stack.list.size
+//@   ensures [C05 C15 C17] Inv(stack) && stack.list == old(stack.list) && len(Seq(stack)) == 0
+
+//@ func Stack.Values
+//@   requires Inv(stack)
+//@   modifies nothing
+//@   ensures [C05 C15 C16 C17 C18] fresh(arr(result)) && seq(result) == Seq(stack)
+
+//@ func Stack.withinRange
+//@   inline
+
+// ---- iterator: a cursor over positions -1..n of Seq(stack) (C08) ----
+
+//@ pred ItInv(it) := it != nil && it.stack != nil && Inv(it.stack) && 0 - 1 <= it.index && it.index <= len(Seq(it.stack))
+
+//@ func Stack.Iterator
+//@   requires Inv(stack)
+//@   modifies nothing
+//@   ensures [C08 C17 C18] fresh(result) && ItInv(result) && result.stack == stack && result.index == 0 - 1
+
+//@ func Iterator.Next
+//@   requires ItInv(iterator)
+//@   modifies iterator.index
+//@   ensures [C08 C17] ItInv(iterator) && iterator.index == min(old(iterator.index) + 1, len(Seq(iterator.stack)))
+//@   ensures [C08] result == (0 <= iterator.index && iterator.index < len(Seq(iterator.stack)))
+
+//@ func Iterator.Value
+//@   requires ItInv(iterator) && 0 <= iterator.index && iterator.index < len(Seq(iterator.stack))
+//@   modifies nothing
+//@   ensures [C08 C17 C18] result == Seq(iterator.stack)[iterator.index]
+
+//@ func Iterator.Index
+//@   requires ItInv(iterator)
+//@   modifies nothing
+//@   ensures [C08 C17 C18] result == iterator.index
+
+//@ func Iterator.Begin
+//@   requires ItInv(iterator)
+//@   modifies iterator.index
+//@   ensures [C08 C17] ItInv(iterator) && iterator.index == 0 - 1
+
+//@ func Iterator.First
+//@   requires ItInv(iterator)
+//@   modifies iterator.index
+//@   ensures [C08 C17] ItInv(iterator) && iterator.index == 0 && result == (len(Seq(iterator.stack)) > 0)
+
+//@ func Iterator.NextTo
+//@   requires ItInv(iterator) && f != nil
+//@   modifies iterator.index
+//@   ensures [C08 C17] ItInv(iterator)
+//@   ensures [C08] found: result ==> old(iterator.index) < iterator.index && iterator.index < len(Seq(iterator.stack)) && f(iterator.index, Seq(iterator.stack)[iterator.index])
+//@     && (forall j :: old(iterator.index) < j && j < iterator.index ==> !f(j, Seq(iterator.stack)[j]))
+//@   ensures [C08] notfound: !result ==> iterator.index == len(Seq(iterator.stack)) && (forall j :: old(iterator.index) < j && j < len(Seq(iterator.stack)) ==> !f(j, Seq(iterator.stack)[j]))
+//@   loop 1:
+//@     invariant ItInv(iterator) && old(iterator.index) <= iterator.index
+//@     invariant forall j :: old(iterator.index) < j && j <= iterator.index && j < len(Seq(iterator.stack)) ==> !f(j, Seq(iterator.stack)[j])
+//@     decreases len(Seq(iterator.stack)) - iterator.index
+
